@@ -60,7 +60,17 @@ def run(ctx):
     loops = [n for n in own_nodes(tr.node) if isinstance(n, ast.For) and isinstance(n.iter, ast.Attribute)
              and any(isinstance(c, ast.Call) and norm(c.func) == "_transpose_note_inplace"
                      for st in n.body if not isinstance(st, (ast.For, ast.While)) for c in ast.walk(st))]
-    ctx.check(len(loops) >= 2, "COVER", "a note loop per branch", func=tr, construct="note-loops",
+    # both kinds of argument reach a note loop: the Score branch and the Part branch each contain one, or each sets the
+    # sequence of parts that a common loop (around a note loop) ranges over
+    kinds = [i for i in own_nodes(tr.node) if isinstance(i, ast.If) and isinstance(i.test, ast.Call) and norm(i.test.func) == "isinstance"
+             and i.test.args and norm(i.test.args[0]) == tr.params[0]]
+    outer = {norm(o.iter) for o in own_nodes(tr.node) if isinstance(o, ast.For) and isinstance(o.iter, ast.Name) and any(lp in list(ast.walk(o)) for lp in loops)}
+    reached = 0
+    for i in kinds:
+        inside = any(lp in list(ast.walk(i)) for lp in loops if any(lp is x for b in i.body for x in ast.walk(b)))
+        sets_seq = any(isinstance(a, ast.Assign) and any(norm(t) in outer for t in a.targets) for b in i.body for a in ast.walk(b))
+        reached += 1 if (inside or sets_seq) else 0
+    ctx.check(len(loops) >= 1 and len(kinds) >= 2 and reached == len(kinds), "COVER", "a note loop for the Score and for the Part argument", func=tr, construct="note-loops",
               msg="both the Score branch and the Part branch need a loop that transposes the notes of the copy")
     for lp in loops:
         attr = lp.iter.attr
